@@ -24,6 +24,37 @@ fn build_vinproc(env: &Env) -> Result<std::path::PathBuf, String> {
     Ok(env.verif.join("engine/target/release/vinproc"))
 }
 
+/// For programs whose enum definition no longer compiles: did the derives ACCEPT the definition
+/// (Ok tokens, i.e. strum generated code that rustc rejects) or REJECT it with their own diagnostic?
+/// Returns name -> true when every derive that can run in-process accepted it.
+pub fn accepted_by_macros(env: &Env, id: &str, items: &[(String, Vec<String>, String)]) -> BTreeMap<String, bool> {
+    let mut res = BTreeMap::new();
+    let exe = match build_vinproc(env) {
+        Ok(e) => e,
+        Err(_) => return res,
+    };
+    let dir = env.verif.join("work").join(id).join("inproc");
+    std::fs::create_dir_all(&dir).unwrap();
+    let inp = json!({"items": items.iter().map(|(n, d, s)| json!({"name": n, "derives": d, "source": s})).collect::<Vec<_>>()});
+    std::fs::write(dir.join("accepts_in.json"), inp.to_string()).unwrap();
+    let mut cmd = Command::new(&exe);
+    cmd.arg("accepts").arg(dir.join("accepts_in.json")).arg(dir.join("accepts_out.json"));
+    let (code, _o, _e) = run_with_timeout(cmd, Duration::from_secs(120));
+    if code != Some(0) {
+        return res;
+    }
+    let out: Value = serde_json::from_str(&std::fs::read_to_string(dir.join("accepts_out.json")).unwrap_or_default()).unwrap_or(Value::Null);
+    if let Some(m) = out.as_object() {
+        for (name, v) in m {
+            let vs: Vec<&str> = v.as_object().map(|o| o.values().filter_map(|x| x.as_str()).collect()).unwrap_or_default();
+            let any_ok = vs.iter().any(|x| *x == "ok");
+            let all_ok = vs.iter().all(|x| *x == "ok" || *x == "na");
+            res.insert(name.clone(), any_ok && all_ok);
+        }
+    }
+    res
+}
+
 fn run_vinproc(env: &Env, id: &str, tier: &str, seed: u64, replay: Option<&Value>, out: &mut Outcome) {
     let exe = match build_vinproc(env) {
         Ok(e) => e,
